@@ -58,6 +58,7 @@ class Ctx:
         self.notes: list = []
         self.unwitnessed_reason = None
         self.positive_vars = set()
+        self.positive_polys = set()
 
     # ---- variables ----------------------------------------------------------------
     def new_var(self, name, kind="aux", value=None, origin="") -> Poly:
@@ -96,6 +97,13 @@ class Ctx:
             self.assumptions.append(Assumption("eq", p.real(), tag))
             self.assumptions.append(Assumption("eq", p.imag(), tag))
             return
+        if kind == "gt":
+            self.positive_polys.add(p.key())
+            al = self.caches.get("alias", {}).get(p.key())
+            if al is not None and not al.has_I():
+                self.assumptions.append(Assumption("gt", al, tag + " (alias)"))
+                ((m_, _c),) = al.t.items()
+                self.positive_vars.add(m_[0][0])
         if kind == "gt" and len(p.t) == 1:
             ((m, cf),) = p.t.items()
             if len(m) == 1 and m[0][1] == 1 and cf > 0:
